@@ -552,3 +552,44 @@ Proof.
     + unfold obj_start, dl0. cbn [p_comp p_off]. lia.
     + unfold obj_start, dl0. cbn [p_comp p_off]. lia.
 Qed.
+
+(* ------------------------------------------------------------------ writePtr, all branches *)
+Lemma wp_step f : Q_cs f -> Q_wp (S f).
+Proof.
+  intros QC w objs pads q src fc w' [H C] Hq Vs HW Hb.
+  assert (NC : (p_valid src = false \/ In (core src) objs /\ p_member src = false /\ fc = false \/
+                p_kind src = KStruct /\ os_isZero (p_size src) = true \/
+                p_kind src = KIface /\ 0 <= p_len src < 4294967296) ->
+               exists eo ep, tinv w' (objs ++ eo) (pads ++ ep)).
+  { intros Hsrc. destruct (write_ptr_hinv_gen f w objs pads q src fc w' H Hq Hsrc HW Hb) as [pads' H'].
+    exists [], pads'. rewrite app_nil_r. split; auto. }
+  destruct (p_valid src) eqn:Hv; [|apply NC; auto].
+  pose proof Vs as Vs0.
+  destruct Vs as [V|[[M V]|[(hl & i & Hhl & MA)|[(Ek & Esz & _)|(Ek & Hl & _)]]]]; [congruence| | | |].
+  - (* a handle of a table object *)
+    destruct fc; [|apply NC; auto].
+    destruct (p_kind src) eqn:Ek.
+    + destruct (os_isZero (p_size src)) eqn:EZ; [apply NC; auto|].
+      apply (struct_copy f QC w objs pads q src true w'); auto. split; auto.
+    + apply (list_copy f QC w objs pads q src w'); auto. split; auto.
+    + exfalso. destruct (core_facts src) as (_ & _ & _ & _ & _ & _ & C7).
+      destruct (hi_good _ _ _ H _ V) as [_ (Sh & _)]. apply (proj1 C7) in Sh. unfold shape_ok in Sh. rewrite Ek in Sh. exact Sh.
+  - (* a list member *)
+    destruct MA as (_ & _ & _ & _ & _ & _ & _ & Ek & Hm).
+    destruct (os_isZero (p_size src)) eqn:EZ; [apply NC; auto|].
+    apply (struct_copy f QC w objs pads q src fc w'); auto; [split; auto|]. rewrite Hm. apply Bool.orb_true_r.
+  - apply NC. right. right. left. split; [exact Ek|]. rewrite Esz. reflexivity.
+  - apply NC. right. right. right. auto.
+Qed.
+
+(* [copy_all]: writePtr and copyStruct inside one message, with any view of the table as source
+   and any pointer slot / struct view as destination, for every forceCopy, keep the table
+   invariant; the tables only grow *)
+Theorem copy_all : forall f, Q_wp f /\ Q_cs f.
+Proof.
+  induction f as [|f [IW IC]].
+  - split.
+    + intros w objs pads q src fc w' _ _ _ HW. discriminate HW.
+    + intros w objs pads dst src w' _ _ _ _ _ HW. discriminate HW.
+  - split; [apply wp_step; exact IC|apply cs_step; exact IW].
+Qed.
